@@ -237,6 +237,17 @@ pub struct FiCase {
     pub more: Vec<(u16, u64)>,
 }
 
+/// String items: ASCII, multi-byte UTF-8 (byte length != char count) and the empty string.
+pub fn fi_string(id: u64) -> String {
+    if id == 5 {
+        String::new()
+    } else if id % 3 == 0 {
+        format!("\u{43a}\u{43b}\u{44e}\u{447}-{id}-\u{e9}\u{1f600}")
+    } else {
+        format!("item-{id}")
+    }
+}
+
 pub fn fi_case() -> impl Strategy<Value = FiCase> {
     (
         0u8..3,
@@ -284,7 +295,7 @@ where
                 let it = conv(id);
                 let lb = s.lower_bound(&it);
                 if lb > 0 {
-                    let key = if strings { format!("item-{id}") } else { item_key(c.kind, id) };
+                    let key = if strings { fi_string(id) } else { item_key(c.kind, id) };
                     want.insert(key, lb);
                 }
             }
@@ -415,7 +426,7 @@ pub fn fi_run(c: &FiCase, info: &mut CaseInfo, layout: bool) -> Result<(), Fail>
     match c.kind % 3 {
         0 => fi_typed::<i64>(c, info, &|id| id as i64 - 1000, false, layout),
         1 => fi_typed::<u64>(c, info, &|id| id.wrapping_mul(0x9E3779B97F4A7C15), false, layout),
-        _ => fi_typed::<String>(c, info, &|id| format!("item-{id}"), true, layout),
+        _ => fi_typed::<String>(c, info, &fi_string, true, layout),
     }
 }
 pub fn fi_roundtrip(c: &FiCase, info: &mut CaseInfo) -> Result<(), Fail> {
